@@ -29,6 +29,7 @@ import Martian.Dataflow
 import Martian.Resolver
 import Proofs.Dataflow
 import Proofs.DataflowAlias
+import Proofs.DataflowAliasKeys
 import Proofs.ResolverForks
 import Proofs.ResolverStaticCheck
 import Proofs.ResolverStaticMapCheck
@@ -325,32 +326,83 @@ theorem den_empty_map_null (st : StructTable) (nf : Nat) (insOf : String → Lis
       obtain ⟨j, _, rfl⟩ := hi
       rfl
 
-/-- Renaming call ids inside a pipeline body changes nothing but the id.
-`swapCall a b` exchanges the ids `a` and `b` consistently (in the call
-statements and in every reference of every binding / `disabled` expression; a
-transposition, so no freshness condition is needed — renaming `a` to a fresh
-`b` is the special case where `b` does not occur).  If the callees' denotations
-are re-keyed accordingly (`RunnerRel`: on the renamed path / fork entry they
-answer what the original ones answer on the original path — i.e. the recorded
-stage outputs are looked up under the new name), then evaluating the renamed
-body yields the same environment up to the renaming of its keys — the same
-type and value for every call —, exactly the same stage instances with the same
-argument records, and every renamed return expression denotes the same value. -/
+/-- Renaming call ids inside a pipeline body changes nothing but the ids — UP TO THE RENAMING OF
+THE INSTANCE KEYS (audit C01-H5: den's callee denotation puts the call path, and for a mapped call
+the call id of its fork entry, into every instance key, so the instances below a renamed call
+move).  `swapCall a b` exchanges the ids `a` and `b` consistently (in the call statements and in
+every reference of every binding / `disabled` expression; a transposition, so no freshness
+condition is needed — renaming `a` to a fresh `b` is the special case where `b` does not occur).
+If the callees' denotations are related accordingly (`RunnerRelK`: on the renamed path / fork
+entry they answer the same VALUE as the original ones on the original path, and the same
+instances with every key renamed by `renKey` — satisfied by den's own callee denotation with the
+re-keyed oracle: `den_alias_runner`), then evaluating the renamed body yields the same environment
+up to the renaming of its keys — the same type and value for every call —, the same stage
+instances with the same argument records each under its renamed key, and every renamed return
+expression denotes the same value. -/
 theorem den_alias (st : StructTable) (nf : Nat) (insOf : String → List Param) (a b : String)
-    (run run' : Runner) (path : List String) (forks : List (String × Idx))
-    (hrel : RunnerRel a b path forks run run') (cs : List Call) (env : Env) (acc : List Inst) :
-    evalCalls st nf insOf run' path forks (cs.map (swapCall a b)) (swapEnv a b env) acc
+    (run run' : Runner) (path : List String) (forks : List (String × Idx)) (mf : String → Bool)
+    (hrel : RunnerRelK a b path forks mf run run') (cs : List Call) (env : Env) (acc : List Inst)
+    (hmf : ∀ c ∈ cs, mf c.id = c.mapped) :
+    evalCalls st nf insOf run' path forks (cs.map (swapCall a b)) (swapEnv a b env)
+        (acc.map (renInst a b path.length forks.length mf))
       = (swapEnv a b (evalCalls st nf insOf run path forks cs env acc).1,
-         (evalCalls st nf insOf run path forks cs env acc).2)
+         (evalCalls st nf insOf run path forks cs env acc).2.map (renInst a b path.length forks.length mf))
     ∧ ∀ e : Exp,
         eval st (swapEnv a b (evalCalls st nf insOf run path forks cs env acc).1) (swapExp a b e)
           = eval st (evalCalls st nf insOf run path forks cs env acc).1 e :=
-  ⟨evalCalls_swap st nf insOf a b run run' path forks hrel cs env acc,
+  ⟨evalCalls_swapK st nf insOf a b run run' path forks mf hrel cs env acc hmf,
    fun e => eval_swap st a b _ e⟩
 
-/-- `den_alias` is not vacuous: a callee denotation that really depends on the
-call id, and its re-keyed counterpart, are related. -/
-example (a b : String) : RunnerRel a b [] [] idRunner (idRunnerSwapped a b) := idRunner_rel a b
+/-- The hypothesis of `den_alias` holds for den's OWN callee denotation, for every program (stage
+callees included: the renamed key is where the recorded outs are looked up): `runCallable P O`
+against `runCallable P (O ∘ renKey)`. -/
+theorem den_alias_runner (P : Program) (O : Oracle) (nf fuel : Nat) (a b : String)
+    (path : List String) (forks : List (String × Idx)) (mf : String → Bool) :
+    RunnerRelK a b path forks mf (runCallable P O nf fuel)
+      (runCallable P (fun k => O (renKey a b path.length forks.length (fun y => mf (swapId a b y)) k)) nf fuel) :=
+  runnerRelK_runCallable P O nf fuel a b path forks mf
+
+/--
+PARTIAL (whole-program `den_alias`, for the body of the TOP-LEVEL pipeline).  Swapping the call
+ids `a` and `b` in the body of the top-level pipeline (`swapTop`) and looking the recorded stage
+outputs up under the renamed keys (`O ∘ renKey`: path component at depth 1, and the fork entry of
+the renamed call when it is a map call) yields the same top-level outputs and exactly the stage
+instances of the original program with the same argument records, each under its renamed key.
+Hypotheses (decidable): the top callable is a pipeline whose call ids are distinct, and no
+callable calls the top-level pipeline.
+
+Full statement NOT proved: the same for the body of ANY pipeline of the program (a pipeline that is
+instantiated at several call paths needs the renaming of keys at every one of them: `renKey`
+along a walk of the program; `den_alias` + `den_alias_runner` are the per-instantiation step).
+-/
+theorem den_alias_top_partial (a b : String) (P : Program) (O : Oracle)
+    (pins outs : List Param) (calls : List Call) (ret : List (String × Exp))
+    (htop : P.callables.lookup P.top.callee = some (.pipeline pins outs calls ret))
+    (hids : (calls.map (·.id)).Nodup) (hnocall : noCallToTopB P = true) :
+    den (swapTop a b P) (fun k => O (renKey a b 1 0 (fun y => mappedOf calls (swapId a b y)) k))
+      = renRes a b 1 0 (mappedOf calls) (den P O) :=
+  den_alias_top a b P O pins outs calls ret htop hids (noCallToTopB_sound P hnocall)
+
+/-- non-vacuity on a program with STAGE callees (plain and mapped): the example program `exMap`
+(GEN, a map call W of WORK over three elements, USE): hypotheses hold … -/
+example : exMap.callables.lookup exMap.top.callee =
+      some (.pipeline [⟨"v", xInt⟩] [⟨"ys", ⟨"int", 0, 1⟩⟩, ⟨"r", xInt⟩]
+        (match exMap.callables.lookup "TOP" with | some (.pipeline _ _ cs _) => cs | _ => [])
+        (match exMap.callables.lookup "TOP" with | some (.pipeline _ _ _ r) => r | _ => []))
+    ∧ noCallToTopB exMap = true := ⟨rfl, by decide⟩
+
+/-- … and the keys really move: after swapping `GEN` and `W` the instance that was
+`TOP.W[W=1]` is `TOP.GEN[GEN=1]` (path component AND fork entry renamed), the plain stage
+`TOP.GEN` is `TOP.W`, with the same argument records -/
+example :
+    let calls := match exMap.callables.lookup "TOP" with | some (.pipeline _ _ cs _) => cs | _ => []
+    let O' : Oracle := fun k => exMapOracle (renKey "GEN" "W" 1 0 (fun y => mappedOf calls (swapId "GEN" "W" y)) k)
+    (den (swapTop "GEN" "W" exMap) O').2.map (·.key)
+      = [⟨["TOP", "W"], []⟩, ⟨["TOP", "GEN"], [("GEN", .i 0)]⟩, ⟨["TOP", "GEN"], [("GEN", .i 1)]⟩,
+         ⟨["TOP", "GEN"], [("GEN", .i 2)]⟩, ⟨["TOP", "USE"], []⟩]
+    ∧ ((den (swapTop "GEN" "W" exMap) O').2.zip (den exMap exMapOracle).2).all
+        (fun p => p.1.args.matches p.2.args) = true
+    ∧ (den (swapTop "GEN" "W" exMap) O').1.matches (den exMap exMapOracle).1 = true := by decide
 
 example : swapCall "A" "B" (exAliasCall "A" "A") = exAliasCall "B" "B" := by
   simp [swapCall, swapExp, swapId, exAliasCall]
